@@ -88,6 +88,44 @@ func vfRandAfts(r *rand.Rand) *aftpb.Afts {
 			}
 		}
 		if r.Intn(3) == 0 {
+			// encap headers: MPLS (label stack, traffic class) and UDPv6 (addresses, ports, DSCP, TTL), distinct indices
+			uvv := func(vals ...uint64) *wpb.UintValue {
+				if r.Intn(3) == 0 {
+					return nil
+				}
+				return &wpb.UintValue{Value: vals[r.Intn(len(vals))]}
+			}
+			perm := r.Perm(3)
+			for i, k := 0, 1+r.Intn(2); i < k; i++ {
+				idx := []uint64{0, 1, 2}[perm[i]]
+				if r.Intn(12) == 0 {
+					idx = []uint64{255, 256, 1 << 40}[r.Intn(3)]
+				}
+				h := &aftpb.Afts_NextHop_EncapHeader{Type: en()}
+				switch r.Intn(3) {
+				case 0:
+					h.Mpls = &aftpb.Afts_NextHop_EncapHeader_Mpls{TrafficClass: uvv(0, 1, 7, 7, 8, 256)}
+					for j, m := 0, r.Intn(4); j < m; j++ {
+						l := labels[3+r.Intn(4)]
+						if r.Intn(8) == 0 {
+							l = labels[r.Intn(len(labels))]
+						}
+						h.Mpls.MplsLabelStack = append(h.Mpls.MplsLabelStack, &aftpb.Afts_NextHop_EncapHeader_Mpls_MplsLabelStackUnion{MplsLabelStackUint64: l})
+					}
+				case 1:
+					h.UdpV6 = &aftpb.Afts_NextHop_EncapHeader_UdpV6{Dscp: uvv(0, 10, 63, 63, 64, 256), DstUdpPort: uvv(0, 6635, 65535, 65535, 65536), SrcUdpPort: uvv(0, 1234, 65535, 1 << 40),
+						IpTtl: uvv(0, 64, 255, 255, 256)}
+					if r.Intn(2) == 0 {
+						h.UdpV6.SrcIp = ip()
+					}
+					if r.Intn(2) == 0 {
+						h.UdpV6.DstIp = ip()
+					}
+				}
+				n.EncapHeader = append(n.EncapHeader, &aftpb.Afts_NextHop_EncapHeaderKey{Index: idx, EncapHeader: h})
+			}
+		}
+		if r.Intn(3) == 0 {
 			for i, k := 0, 1+r.Intn(3); i < k; i++ {
 				l := labels[3+r.Intn(4)]
 				if r.Intn(6) == 0 {
@@ -283,7 +321,7 @@ func TestVfModelAgreement(t *testing.T) {
 		for _, e := range real.GetAfts().NextHop {
 			p1, x1 := ConcreteNextHopProto(e)
 			p2, x2 := vfModelConcreteNextHopProto(e)
-			if (x1 != nil) != (x2 != nil) || (x1 == nil && cmp.Diff(p1, p2, protocmp.Transform()) != "") {
+			if (x1 != nil) != (x2 != nil) || (x1 == nil && cmp.Diff(p1, p2, protocmp.Transform(), protocmp.SortRepeatedFields(&aftpb.Afts_NextHop{}, "encap_header")) != "") {
 				t.Errorf("ConcreteNextHopProto(%v): %v/%v vs %v/%v", e, p1, x1, p2, x2)
 			}
 		}
@@ -303,7 +341,8 @@ func TestVfModelAgreement(t *testing.T) {
 // not applicable; otherwise a description).  Canonical: the MODEL's round trip returns a itself.
 func vfRoundTripIdentity(a *aftpb.Afts, real, model *aft.RIB) string {
 	sortNHG := protocmp.SortRepeatedFields(&aftpb.Afts_NextHopGroup{}, "next_hop")
-	eq := func(x, y proto.Message) bool { return cmp.Diff(x, y, protocmp.Transform(), sortNHG) == "" }
+	sortEH := protocmp.SortRepeatedFields(&aftpb.Afts_NextHop{}, "encap_header")
+	eq := func(x, y proto.Message) bool { return cmp.Diff(x, y, protocmp.Transform(), sortNHG, sortEH) == "" }
 	for _, in := range a.Ipv4Entry {
 		me, re := model.GetAfts().Ipv4Entry[in.Prefix], real.GetAfts().Ipv4Entry[in.Prefix]
 		if me == nil || re == nil {
